@@ -334,14 +334,6 @@ func formatOracle(s *explore.Sess, vi pogreb.VerifIndex, segs []pogreb.VerifSegm
 			return fmt.Sprintf("%s.pmt read with the pinned version's field names gives %+v, the segment had %+v", sg.Name, sm, sg)
 		}
 	}
-	for _, n := range fsys.NamesIn(explore.DBPath) {
-		switch {
-		case n == "main.pix" || n == "overflow.pix" || n == "index.pmt" || n == "db.pmt":
-		case strings.HasSuffix(n, ".psg") || strings.HasSuffix(n, ".psg.pmt"):
-		default:
-			return "file " + n + " is not part of the documented directory layout of a closed database"
-		}
-	}
 	return ""
 }
 
